@@ -43,6 +43,7 @@ type Unit struct {
 	loopStatic      []ast.Stmt
 	loopAlign       map[int]int // current static index -> recorded static index (-1: new loop); nil: identity
 	loopAlignDone   bool
+	loopForeignSeen int
 	loopUnmatched   map[int]bool
 	loopSeenStmt    map[ast.Stmt]int
 	curLocals       []*types.Var
@@ -423,6 +424,10 @@ func (u *Unit) allocCell(st *State, pointee types.Type, content string) string {
 	r := u.newRef(st)
 	cur := u.heapRead(st, h)
 	u.heapWrite(st, h, fmt.Sprintf("(store %s %s %s)", cur, r, content))
+	if nm, ok := pointee.(*types.Named); ok && nm.Obj().Pkg() != nil && nm.Obj().Pkg().Path() == "bytes" && nm.Obj().Name() == "Buffer" && content == u.zeroOf(pointee).S {
+		// a zero-value bytes.Buffer is empty: nothing written that was not read (Len() == written - consumed == 0)
+		st.assume(eq(u.ghostCount(st, "written", r), u.ghostCount(st, "consumed", r)))
+	}
 	return r
 }
 
